@@ -6,9 +6,9 @@
   `qlayer cls cfg` transcribes the `call` method of the qkeras class as written in
       qkeras/qlayers.py        QDense.call (647-662), QActivation.call (179-180)
       qkeras/qconvolutional.py QConv1D.call (causal pad of the time axis in `call`, repaired in
-                               035b3d2), QConv2D.call (mask, groups), QSeparableConv1D.call (causal
+                               6ddae0e), QConv2D.call (mask, groups), QSeparableConv1D.call (causal
                                pad, kernels quantized AS STORED and expanded afterwards, repaired in
-                               5ab82ec), QSeparableConv2D.call, QDepthwiseConv2D.call
+                               871ddb1), QSeparableConv2D.call, QDepthwiseConv2D.call
       qkeras/qpooling.py       QAveragePooling2D.call  (avg(x*area) * Q(1/area)),
                                QGlobalAveragePooling2D.call (sum * Q(1/area))
       qkeras/qmac.py           QScaleShift.call
@@ -193,7 +193,7 @@ def spatialStart (g : ConvGeom) : Nat := if g.df = .channelsLast then 1 else 2
 /-- `K.conv1d` when it is GIVEN `padding == "causal"`: the backend function expands it into
     `temporal_padding(x, (dilation * (kernel_shape[0] - 1), 0))` followed by a `valid` convolution.
     `temporal_padding` pads AXIS 1 whatever the data format — under `channels_first` that is the
-    channel axis.  QConv1D.call reached causal padding this way until /repo 035b3d2
+    channel axis.  QConv1D.call reached causal padding this way until /repo 6ddae0e
     (finding C11-conv1d-causal-channels-first); it now pads the time axis itself and hands `valid`
     to `K.conv1d`, so this expansion is no longer reached by any layer term — it is kept for the
     regression witness (`qConv1dBackendCausal` below). -/
@@ -215,7 +215,7 @@ def qDense (c : LCfg) : Term :=
 def qActivation (_ : LCfg) : Term := .actv 0 .input
 
 /-- QConv1D.call (both data formats: `data_format=self.data_format` goes to `K.conv1d` and `K.bias_add`).
-    Causal padding (repaired in 035b3d2): `call` pads the TIME axis of the inputs itself
+    Causal padding (repaired in 6ddae0e): `call` pads the TIME axis of the inputs itself
     (`tf.pad`, `left_pad = dilation_rate[0] * (kernel_size[0] - 1)`, axis 1 under channels_last, axis 2
     under channels_first) and runs `K.conv1d` with `padding="valid"` — written independently of
     `kConv1d` (the stock `Conv.call` + `_compute_causal_padding`); the theorems say they agree. -/
@@ -248,7 +248,7 @@ def sep1dGeom (g : ConvGeom) : ConvGeom :=
 
 /-- QSeparableConv1D.call (`spatial_start_dim` = 1 / 2; causal padding through the stock
     `_compute_causal_padding`, which pads the time axis of either format).  The quantizers see the
-    kernels AS STORED; the quantized kernels are expanded to 4-D afterwards (repaired in 5ab82ec; before,
+    kernels AS STORED; the quantized kernels are expanded to 4-D afterwards (repaired in 871ddb1; before,
     the kernels were expanded first and the quantizers saw the 4-D tensors: `qSepConv1dExpandFirst`). -/
 def qSepConv1d (c : LCfg) : Term :=
   let x := if c.conv.padding = .causal then
@@ -648,7 +648,7 @@ def preEnv {T : Type} (c : LCfg) (E : Env T) : Env T :=
 /-- "followed by the layer's activation quantizer" -/
 def actOf {T : Type} (c : LCfg) (E : Env T) (v : T) : T := if c.hasAct then E.actv 0 v else v
 
-/-- what a quantizer of slot `p.1` may be applied to: its own weight AS STORED (since 5ab82ec also in
+/-- what a quantizer of slot `p.1` may be applied to: its own weight AS STORED (since 871ddb1 also in
     the 1-D separable layer), or — pooling — the reciprocal of the pool area (constructor constant for
     QAveragePooling2D, area of the current input for QGlobalAveragePooling2D) -/
 def ownTarget (c : LCfg) (p : Nat × Term) : Bool :=
@@ -704,7 +704,7 @@ def qGlobalAvgPool2dBuildCached (c : LCfg) : Term :=
   withAct c (.op2 .mul (.op1 (.sumHW c.pool.df c.keepdims) .input)
     (.quant 0 (.op1 (.recipAreaHW c.pool.df) (.state 0))))
 
-/-- QConv1D.call BEFORE /repo 035b3d2: `padding=self.padding` went to `K.conv1d`, whose own expansion
+/-- QConv1D.call BEFORE /repo 6ddae0e: `padding=self.padding` went to `K.conv1d`, whose own expansion
     of `causal` pads axis 1 (`kConv1dOp`) -/
 def qConv1dBackendCausal (c : LCfg) : Term :=
   let k := qw c 0 (.weight 0)
@@ -712,7 +712,7 @@ def qConv1dBackendCausal (c : LCfg) : Term :=
   let out := if c.useBias then .op2 (.biasAdd c.conv.df) out (qw c 1 (.weight 1)) else out
   withAct c out
 
-/-- QSeparableConv1D.call BEFORE /repo 5ab82ec: the kernels were expanded to 4-D FIRST and the
+/-- QSeparableConv1D.call BEFORE /repo 871ddb1: the kernels were expanded to 4-D FIRST and the
     quantizers saw the expanded tensors -/
 def qSepConv1dExpandFirst (c : LCfg) : Term :=
   let x := if c.conv.padding = .causal then
